@@ -69,7 +69,7 @@ def run(tier, replay=None):
 
     mism = {"ref": None, "grid": None, "ctx": None}
     if ck.coq_ok and not replay:
-        hdr = "From DSL Require Import Model Generated_contexts Run."
+        hdr = "From Coq Require Import NArith.\nFrom DSL Require Import Model Generated_contexts Run."
         for key, fname, typ, fn, shards in (
                 ("ref", "cases_ref.txt", "ref_case", "ref_mismatches", None),
                 ("grid", "cases_grid.txt", "grid_case", "grid_mismatches", 8),
@@ -102,7 +102,7 @@ def run(tier, replay=None):
         if res["extra"].get("grid_unreached") and not ck.violations:
             ck.unproved("%d grid probes were never reached (a context template no longer nests as expected)" % res["extra"]["grid_unreached"],
                         {"broken": "grid context templates"})
-        nbase = res["distribution"].get("mutation=none", 0)
+        nbase = sum(v for k, v in res["distribution"].items() if k in ("mutation=none", "mutation=multi_ref_valid", "mutation=apikey_two_schemes_valid"))
         nrej = res["distribution"].get("base_design_rejected", 0)
         if nrej > max(2, nbase // 50) and not ck.violations:
             ck.unproved("%d of %d unmutated random designs are rejected by goa: the design generator left its envelope (or goa rejects valid designs)" % (nrej, nbase),
